@@ -1449,13 +1449,21 @@ func gridLayout(context *layoutContext, box_ Box, bottomSpace pr.Float, skipStac
 		// TODO: Check that page is not empty.
 		if context.overflowsPage(bottomSpace, rowY-skipHeight) {
 			if i == 0 {
+				if pageIsEmpty {
+					continue
+				}
 				return nil, blockLayout{nil, nil, tree.PageBreak{Break: "any"}, false}
 			}
 			resumeRow = i - 1
-			resumeAt = tree.ResumeStack{i - 1: nil}
+			if pageIsEmpty && resumeRow <= skipRow {
+				// The first row of an empty page does not fit: keep it anyway,
+				// pushing it to the next page would loop for ever.
+				resumeRow = i
+			}
+			resumeAt = tree.ResumeStack{resumeRow: nil}
 			for _, child := range children {
 				_, y, _, _ := childrenPositions[child].unpack()
-				if skipRow <= y && y <= i-2 {
+				if skipRow <= y && y <= resumeRow-1 {
 					thisPageChildren = append(thisPageChildren, child)
 				}
 			}
